@@ -27,7 +27,7 @@ PROPS = {
     'C11': hp(['class', 'loc', 'jar', 'calls'], 'Lean: logout_ends, no_forward_until_new_login (any history after the logout), dead_stays_dead, logout_location, postLogout_resolution, cleared_is_anonymous; tie: class, Location, jar after logout; oracle: Location equals the reference construction, no request forwarded after logout until a new login', extra_facts=[]),
     'C15': hp(['class', 'loc'], 'Lean: stored_path_safe, initiate_stores_local, postLoginTarget_local, local_is_same_origin, callback_redirect_is_local, logout_target; tie: class and Location fields; oracle: origin of every Location as a browser resolves it is the request origin, the provider, or the configured post-logout URI', extra_facts=['maxIncomingPathLength']),
     'C16': hp(['class', 'code', 'body', 'msg'], 'Lean: escape_safe, escape_entities, errPage_html, errPage_kinds, callback_error_body; tie: status, body kind and the rendered message of the request-derived error text; oracle: markers in every client-controlled field never appear unescaped in HTML, JSON bodies parse and carry the message as a string, anything else is text/plain'),
-    'C17': hp(['class', 'code', 'jar', 'calls'], 'Lean: only_callback_5xx_partial (K1 named), bad_is_absent, unusable_redirects, heals, stored_uri_bounded; tie: class, code, jar; oracle: no panic, no 5xx unless the scripted provider misbehaved, login from the resulting jar succeeds and the next request is forwarded', extra_facts=['maxIncomingPathLength', 'maxCookieSize', 'absoluteSessionTimeoutSec'], crash_is_violation=True),
+    'C17': hp(['class', 'code', 'jar', 'calls'], 'Lean: only_callback_5xx_partial (K1 named), bad_is_absent, unusable_redirects, heals, stored_uri_bounded; tie: class, code, jar; oracle: no panic, no 5xx unless the scripted provider misbehaved, login from the resulting jar succeeds and the next request is forwarded', extra_facts=['maxIncomingPathLength', 'maxCookieSize', 'absoluteSessionTimeoutSec'], crash_is_violation=True, extra_runs=[dict(family='sched', diff=False)]),
     'C07': dict(
         family='session', driver_family='handler', fields=['jar', 'saveErr'], facts=['maxCookieSize', 'absoluteSessionTimeoutSec', 'mainCookieName', 'accessTokenCookie', 'refreshTokenCookie'],
         trusted=['gzip+base64 is an abstract injective codec in the model (decompress (compress t) = t, compress t != ""); its real round trip is exercised by every run',
